@@ -971,6 +971,15 @@ def run_mesh_history(run, mesh, cls, xf):
         # (1) a copy that keeps the cache is moved: the original must still be bounded where it is
         c = _copy.copy(m)
         R = rand_rot(run.rng)
+        # the move is a rotation, a mirror image or either with a uniform scale: whatever travels
+        # with the mesh (a hull kept across the move) has to come out wound for the new placement
+        # (from seeded change C16-r3-2, which the rotation-only history caught by chance)
+        kind = int(run.rng.integers(4))
+        if kind in (1, 3):
+            R = R @ np.diag([-1.0, 1.0, 1.0])
+        if kind in (2, 3):
+            R = R * 2.5
+        run.count("mesh_history_move:" + ("rotation", "mirror", "similarity", "mirrored_similarity")[kind])
         M = np.eye(4)
         M[:3, :3] = R
         M[:3, 3] = np.array([7.0, -11.0, 5.0]) * max(1.0, float(np.abs(P0).max()))
